@@ -463,38 +463,28 @@ func substringFunc(arg1, arg2, arg3 query) func(query, iterator) interface{} {
 			panic(errors.New("substring() function first argument type must be number"))
 		}
 		// fix https://github.com/antchfx/xpath/issues/109
+		// The characters returned are those at the 1-based positions p with
+		// round(start) <= p < round(start) + round(length), and all of them
+		// from round(start) on when length is omitted.
 		start = math.Round(start)
-		if start > float64(len(m)) {
+		last := float64(len(m)) + 1
+		end := last
+		if arg3 != nil {
+			if length, ok = functionArgs(arg3).Evaluate(t).(float64); !ok {
+				panic(errors.New("substring() function second argument type must be number"))
+			}
+			end = start + math.Round(length)
+		}
+		if start < 1 {
+			start = 1
+		}
+		if end > last {
+			end = last
+		}
+		if !(start < end) { // also when either of them is NaN
 			return ""
 		}
-		if arg3 == nil {
-			if start <= 0 {
-				return m
-			}
-			return m[int(start)-1:]
-		}
-
-		if length, ok = functionArgs(arg3).Evaluate(t).(float64); !ok {
-			panic(errors.New("substring() function second argument type must be number"))
-		}
-		length = math.Round(length)
-		if length <= 0 {
-			return ""
-		}
-		if length > float64(len(m)) {
-			length = float64(len(m))
-		}
-		if start < 0 {
-			length = length - math.Abs(start)
-			if length <= 1 {
-				return ""
-			}
-			return m[:int(length-1)]
-		}
-		if start == 0 {
-			return m[:int(length-1)]
-		}
-		return m[int(start-1):int(length+start-1)]
+		return m[int(start)-1 : int(end)-1]
 	}
 }
 
